@@ -40,6 +40,13 @@ def main(argv=None) -> int:
             return 2
         seed = int(rec.get("seed", seed))
         tier = rec.get("tier", tier) if rec.get("tier") in ("quick", "thorough") else tier
+    # Two runs of the same property in one /verif share .work/<pid>_* and replay/<pid>: serialise them (the second waits) instead of letting them
+    # overwrite each other's cfg / trace files, which ends in a machinery failure (exit 2), never in a verdict, but is avoidable.
+    import fcntl
+    from .tlc import WORK
+    WORK.mkdir(parents=True, exist_ok=True)
+    _lock = open(WORK / f"{pid}.lock", "w")                 # noqa: SIM115 - held until the process ends
+    fcntl.flock(_lock, fcntl.LOCK_EX)
     ctx = Ctx(pid, tier, seed, replay_mode=bool(a.replay))
     try:
         if a.replay:
